@@ -137,6 +137,11 @@ class SugarGen:
             cell = "{@range(" + str(k) + ")@}"
         else:
             cell = "{@[" + ",".join(repr(e) for e in elems) + "]@}"
+        if k >= 1 and rng.random() < 0.15:
+            # a native list produced by a template filter: a lazy iterable, a list of elements all the same
+            lit = "[" + ",".join(repr(e) for e in elems) + "]"
+            cell = rng.choice(["{@" + lit + "|reverse@}", "{@" + lit + "|map('upper')@}", "{@" + lit + "|select('ne', 'zz')@}",
+                               "{@range(" + str(k) + ")|reverse@}", "{@" + lit + "|map('lower')|reverse@}"])
         outer_idx = [x for x in scope if x.startswith("i")]
         if outer_idx and rng.random() < 0.35:
             # the list depends on an enclosing loop: empty on one pass, non-empty on another
